@@ -249,6 +249,13 @@ pub fn gen_hostile(rng: &mut Rng, n: usize, out: &mut Vec<String>) {
     // nested elements cut inside their header at the end of their parents (complete outer frame)
     { let mut hc = vec![]; for m in corp.iter().take(12) { hc.extend(header_cuts(&encode_with(m, rng, false))); }
       let stride = (hc.len() / (budget / 6).max(1)).max(1); for e in hc.iter().step_by(stride) { out.push(format!("frame {} -", hex(e))); } }
+    // message ids outside 0 .. 2^31-1 and at its edges (F30): 2^32+1, -128, 2^31 with a leading zero, the largest legal id (minimal and
+    // padded), -1, nine octets, eight octets of zero padding
+    for idb in [vec![1u8, 0, 0, 0, 1], vec![0x80], vec![0, 0x80, 0, 0, 0], vec![0x7f, 0xff, 0xff, 0xff], vec![0, 0x7f, 0xff, 0xff, 0xff], vec![0xff], vec![1, 0, 0, 0, 0, 0, 0, 0, 1], vec![0, 0, 0, 0, 0, 0, 0, 5], vec![0, 0, 0, 0, 0, 0, 0, 0, 5], vec![]] {
+        let mut e = vec![0x02, idb.len() as u8]; e.extend(&idb); e.extend([0x61, 0x07, 0x0a, 0x01, 0x00, 0x04, 0x00, 0x04, 0x00]);
+        let mut m = vec![0x30, e.len() as u8]; m.extend(e);
+        out.push(format!("frame {} -", hex(&m)));
+    }
     // the witnesses of findings F2..F4 (also kept in corpus/C11)
     for w in ["3000", "3003020101", "300504010161 00", "300430821000", "300e0201016100a007300504017801 00"] {
         out.push(format!("frame {} -", w.replace(' ', "")));
